@@ -59,7 +59,10 @@ def _helper_body(draw, params, earlier, want):
             s0 = draw(st.sampled_from(ss))
             opts += [f"{s0}.Count()", f"len({s0})", f"{s0}.Select(lambda {s0}: {s0} + 1).Count()"]
             if ns:
-                opts += [f"{s0}.Where(lambda x: x > {ns[0]}).Count()", f"{s0}.Where(lambda {ns[0]}: {ns[0]} > 1).Count() + {ns[0]}"]
+                bnd = draw(st.sampled_from(["x", "j", "q", "a", "b"]))  # the binder may be spelled like a parameter of a calling helper
+                if bnd in (s0, ns[0]):
+                    bnd = "q"
+                opts += [f"{s0}.Where(lambda {bnd}: {bnd} > {ns[0]}).Count()"] * 2 + [f"{s0}.Where(lambda {ns[0]}: {ns[0]} > 1).Count() + {ns[0]}"]
         for h in earlier:
             if h["ret"] == "N" and depth > 0:
                 args = []
@@ -72,10 +75,15 @@ def _helper_body(draw, params, earlier, want):
                         else:
                             ok = False
                             break
+                    elif pk == "N" and len(ns) >= 2 and draw(st.integers(0, 3)) > 0:
+                        # an argument EXPRESSION over two parameters of the calling helper (their names may coincide with the
+                        # callee's parameters and with binders inside the callee's body)
+                        a1, a2 = draw(st.permutations(ns))[:2]
+                        args.append(f"({a1} * 10 + {a2})")
                     else:
                         args.append(draw(st.sampled_from(pool)))
                 if ok:
-                    opts.append(f"{h['name']}({', '.join(args)})")
+                    opts += [f"{h['name']}({', '.join(args)})"] * 4
         if not opts:
             opts = ["7"]
         return draw(st.sampled_from(opts))
@@ -182,6 +190,21 @@ def _case(draw):
         if in_nested:
             expr = f"{p}.xs.Select(lambda {inner}: {expr})"
         items.append(expr)
+    if draw(st.integers(0, 4)) == 0:
+        # two-level shape: the inner helper holds a lambda; the outer one passes an argument EXPRESSION whose names may be
+        # spelled like the inner helper's parameter and like the binder of that lambda (substitution must keep scopes apart)
+        pool = ["x", "j", "a"]
+        p1 = draw(st.sampled_from(pool))
+        bnd = draw(st.sampled_from([n for n in pool if n != p1]))
+        q1, q2 = draw(st.permutations(pool))[:2]
+        k = len(helpers)
+        inner_body = draw(st.sampled_from([f"s.Where(lambda {bnd}: {bnd} > {p1}).Count()", f"s.Select(lambda {bnd}: {bnd} * {p1}).Count() + {p1}",
+                                           f"(lambda {bnd}: {bnd} * 10 + {p1})({p1} - 1)"]))
+        helpers.append({"name": f"h{k}", "style": "def", "params": [["s", "S", None], [p1, "N", None]], "body": inner_body, "ret": "N", "closure": None})
+        outer_arg = draw(st.sampled_from([f"({q1} * 10 + {q2})", f"({q2} - {q1})", q1]))
+        helpers.append({"name": f"h{k + 1}", "style": draw(st.sampled_from(["def", "defdoc"])), "params": [["b", "S", None], [q1, "N", None], [q2, "N", None]],
+                        "body": f"h{k}(b, {outer_arg})", "ret": "N", "closure": None})
+        items.append(f"h{k + 1}({p}.xs, {p}.n - {draw(st.integers(0, 6))}, {draw(st.integers(1, 4))})")
     body = "(" + ", ".join(items) + ("," if len(items) == 1 else "") + ")"
     return {"helpers": helpers, "param": p, "body": body}
 
